@@ -67,8 +67,11 @@ class T2Tag(Nothing):
     name = "tag"
     UID = bytes.fromhex("08112233445566")
 
-    def __init__(self, budget=None):
+    def __init__(self, budget=None, nxp=False):
         self.budget = budget
+        if nxp:                                   # NTAG213: vendor probing (AUTHENTICATE, GET_VERSION) on activation
+            self.UID = bytes.fromhex("04112233445566")
+        self.version = bytes.fromhex("0004040201000F03") if nxp else None
         self.mem = bytearray(64)
         self.mem[0:8] = self.UID + b"\x00"
         self.mem[12:16] = bytes.fromhex("E1100600")
@@ -93,13 +96,15 @@ class T2Tag(Nothing):
         if not self.present or not self.selected:
             raise dev.ns.TimeoutError("tag gone")
         if len(data) == 2 and data[0] == 0x30:
-            if self.budget is not None:
+            if self.budget is not None and dev.counting:
                 if self.budget <= 0:
                     self.gone = True
                     raise dev.ns.TimeoutError("tag left")
                 self.budget -= 1
             p = (data[1] * 4) % len(self.mem)
             return bytearray((self.mem + self.mem)[p:p + 16])
+        if data[0] == 0x60 and self.version:
+            return bytearray(self.version)
         self.selected = False                     # a Type 2 tag goes mute on an unknown command
         raise dev.ns.TimeoutError("mute")
 
@@ -127,7 +132,7 @@ class T1Tag(Nothing):
         if data[0] == 0x78:
             return bytearray(b"\x11\x48" + self.UID)
         if data[0] == 0x01 and data[3:7] == self.UID:
-            if self.budget is not None:
+            if self.budget is not None and dev.counting:
                 if self.budget <= 0:
                     self.gone = True
                     raise dev.ns.TimeoutError("tag left")
@@ -156,7 +161,7 @@ class T3Tag(Nothing):
             raise dev.ns.TimeoutError("tag gone")
         data = bytes(data)
         if len(data) == 6 and data[1] == 0x00:
-            if self.budget is not None:
+            if self.budget is not None and dev.counting:
                 if self.budget <= 0:
                     self.gone = True
                     raise dev.ns.TimeoutError("tag left")
@@ -186,7 +191,36 @@ class T4Tag(Nothing):
         if data[0] == 0xE0:
             return bytearray(bytes.fromhex("0578804000"))
         if data[0] & 0xF6 == 0xB2:
-            if self.budget is not None:
+            if self.budget is not None and dev.counting:
+                if self.budget <= 0:
+                    self.gone = True
+                    raise dev.ns.TimeoutError("tag left")
+                self.budget -= 1
+            return bytearray([0xA2 | (data[0] & 1)])
+        raise dev.ns.TimeoutError("not supported")
+
+
+class T4BTag(Nothing):
+    """Type 4B tag: answers ATTRIB and `budget` presence checks, then leaves the field."""
+    name = "tag"
+    SENSB_RES = bytes.fromhex("50E8253EEC00000011008185")
+
+    def __init__(self, budget=None):
+        self.budget, self.gone = budget, False
+
+    def sense(self, dev, kind, target):
+        if kind != "ttb" or self.gone:
+            return None
+        return dict(brty="106B", sensb_res=self.SENSB_RES)
+
+    def command(self, dev, data, timeout):
+        if self.gone:
+            raise dev.ns.TimeoutError("tag gone")
+        data = bytes(data)
+        if data[0] == 0x1D and data[1:5] == self.SENSB_RES[1:5]:
+            return bytearray(b"\x00")
+        if data[0] & 0xF6 == 0xB2:
+            if self.budget is not None and dev.counting:
                 if self.budget <= 0:
                     self.gone = True
                     raise dev.ns.TimeoutError("tag left")
@@ -353,6 +387,9 @@ class SimDevice(object):
         self.log = []
         self.field = False
         self.closed = False
+        self.counting = True      # tag budgets are consumed (a harness may restrict this to the presence phase)
+        self.fault_hook = None    # callable(data) -> exception instance to raise instead of exchanging, or None
+        self.fail_close = False
         self.led = False
         self.observer = None
         self.max_send = 290
@@ -380,6 +417,8 @@ class SimDevice(object):
         def f():
             self.closed = True
             self.field = False
+            if self.fail_close:                 # the transport is released, but the driver reports a failure
+                raise IOError(5, "simulated: reader vanished during close")
         return self._call("close", f)
 
     def mute(self):
@@ -451,6 +490,12 @@ class SimDevice(object):
 
     def send_cmd_recv_rsp(self, target, data, timeout):
         def f():
+            if self.fault_hook is not None:
+                exc = self.fault_hook(data)
+                if exc is not None:
+                    if isinstance(exc, self.ns.TimeoutError):
+                        self.clock.now += max(0.0, timeout or 0.0)
+                    raise exc
             try:
                 return self.env.command(self, data, timeout)
             except self.ns.TimeoutError:
